@@ -27,6 +27,8 @@ def settings(rng, dag):
 
     ops = [n for n in dag.nodes if n.startswith("op-")]
     r = rng.random()
+    if r < 0.12:
+        return dict(kind="simple", ms=4, mn=10, af=[], nf=[])
     if r < 0.45:
         ms = rng.choice([4, 4, 1, 2, 3, 8])
         mn = rng.choice([10, 10, None, 1, 2, 4, 20])
@@ -44,6 +46,10 @@ def settings(rng, dag):
 def real_optimize(dag, array_names, st):
     from cubed.core.optimization import multiple_inputs_optimize_dag
 
+    if st["kind"] == "simple":
+        from cubed.core.optimization import simple_optimize_dag
+
+        return simple_optimize_dag(dag, array_names=array_names)
     kw = dict(array_names=array_names, max_total_source_arrays=st["ms"], max_total_num_input_blocks=st["mn"])
     names = {nid(n): n for n in dag.nodes if n.startswith("op-")}
     if st["kind"] in ("fuse_all", "fuse_only", "mixed"):
@@ -97,7 +103,8 @@ def work(part, nprog):
         cfg = f"(CFG {cnatlist(req)} {st['ms']} {'None' if st['mn'] is None else '(Some %d)' % st['mn']} {cnatlist(st['af'])} {cnatlist(st['nf'])})"
         d0 = dag_term(ops0, virt0)
         d1 = dag_term(ops1s, virt0)
-        part.case("opt", {"expr": f"dag_eqb (optimize unit {cfg} {cnatlist(order)} {d0}) {d1}", "desc": desc,
+        if st["kind"] != "simple":
+          part.case("opt", {"expr": f"dag_eqb (optimize unit {cfg} {cnatlist(order)} {d0}) {d1}", "desc": desc,
                           "show": f"first_diff (dops unit (optimize unit {cfg} {cnatlist(order)} {d0})) (dops unit {d1})"})
         fused = len(ops1) < len(ops0)
         part.count("setting:" + st["kind"])
